@@ -214,6 +214,36 @@ theorem C07_iter_item_then_end (pre : List (Op α)) (hpre : wfOps pre = true)
   refine ⟨ys, j, ?_, sublist_of_concat_sublist_concat _ _ _ h2⟩
   rw [h1]; simp
 
+/-- **A wait that was cancelled says nothing about the observation** (the `fix:` for polling consumers: a
+`__anext__` bounded by `asyncio.wait_for` that timed out).  The consumer is suspended on the pending future
+in the slot and is cancelled: `CancelledError` comes out of that `__anext__` — and the *next* `__anext__`
+does not raise anything: it waits again, on a fresh pending future in the slot (so the next `push` /
+`push_err` reaches it), and the error kept aside is where it was. -/
+theorem C07_iter_wait_after_cancelled_wait (s : St α) (hc : s.cons = .waiting s.slot)
+    (hp : s.get s.slot = .pending) (hlt : s.slot < s.futs.length) :
+    let s1 := (step s .cancel).1
+    let s2 := (step s1 .next).1
+    (step s .cancel).2 = [.cancelled] ∧ (step s1 .next).2 = [] ∧
+      s2.cons = .waiting s2.slot ∧ s2.get s2.slot = .pending ∧ s2.deferred = s.deferred ∧
+      ∀ m : α, (step (step s2 (.push m)).1 .wake).2 = [.item m] := by
+  intro s1 s2
+  have h1 : step s .cancel = ({ s with futs := s.futs.set s.slot .cancelled, cons := .idle }, [.cancelled]) := by
+    simp [step, hc, hp, Fut.done]
+  have hs1 : s1 = { s with futs := s.futs.set s.slot .cancelled, cons := .idle } := by
+    simp [s1, h1]
+  have hg1 : s1.get s1.slot = .cancelled := by
+    simp [hs1, St.get, List.getD_eq_getElem?_getD, List.getElem?_set, hlt]
+  have h2 : step s1 .next = ({ s1.install .pending with cons := .waiting (s1.install .pending).slot }, []) := by
+    have : s1.cons = .idle := by simp [hs1]
+    simp only [step, this, hg1]
+    simp [St.install, St.get, Fut.done, List.getD_eq_getElem?_getD]
+  have hs2 : s2 = { s1.install .pending with cons := .waiting (s1.install .pending).slot } := by
+    simp [s2, h2]
+  refine ⟨by rw [h1], by rw [h2], by simp [hs2], ?_, by simp [hs2, St.install, hs1], ?_⟩
+  · simp [hs2, St.install, St.get, List.getD_eq_getElem?_getD]
+  · intro m
+    simp [hs2, step, push, St.install, St.get, St.complete, finish, Fut.done, List.getD_eq_getElem?_getD]
+
 -- (v) composition with the runner of `Request` ----------------------------------------------------------
 
 open Aiocoap.Observe
@@ -663,10 +693,16 @@ example : outs init ([.next, .push 1, .pushErr .observationCancelled, .wake, .ne
 /-- consumer suspended on an older future while two newer items and the error arrive -/
 example : outs init ([.next, .push 1, .push 2, .push 3, .pushErr (.transport 0), .wake, .next, .next] :
     List (Op Nat)) = [.item 1, .item 3, .raise 0] := by decide
-/-- the consumer task is cancelled while suspended (the future is cancelled: asking again raises
-`CancelledError` until something is pushed) and while a wake-up is due (the item stays) -/
-example : outs init ([.next, .cancel, .next, .push 5, .next] : List (Op Nat)) =
-    [.cancelled, .cancelled, .item 5] := by decide
+/-- the consumer's wait is cancelled while suspended (a time-out around `__anext__`: the future is
+cancelled with it); asking again waits again — the cancelled future is replaced, it said nothing
+about the observation (before the repair the second `__anext__` raised `CancelledError` at once) —
+and the next notification is handed over; cancelled while a wake-up is due: the item stays -/
+example : outs init ([.next, .cancel, .next, .push 5, .wake] : List (Op Nat)) =
+    [.cancelled, .item 5] := by decide
+example : (init : St Nat).slot < (init : St Nat).futs.length ∧
+    (step (init : St Nat) .next).1.cons = .waiting (step (init : St Nat) .next).1.slot := by decide
+example : outs init ([.next, .cancel, .next, .cancel, .next, .pushErr (.transport 1), .wake] : List (Op Nat)) =
+    [.cancelled, .cancelled, .raise 1] := by decide
 example : outs init ([.next, .push 5, .cancel, .next] : List (Op Nat)) = [.cancelled, .item 5] := by
   decide
 /-- three more `__anext__` are needed in the worst case -/
